@@ -52,7 +52,7 @@ META = {
     'exhaustive_tiers': [],
 }
 SHARDS = {'quick': 1, 'thorough': 16}
-SHARD_TIMEOUT = {'quick': 300, 'thorough': 1500}
+SHARD_TIMEOUT = {'quick': 300, 'thorough': 2400}
 
 F_SEED = 'C27-SEED-HAS-DECLARED-CLASS-UNTIL-LOADED'
 F_ISREF = 'C27-ISINSTANCE-REFERENCE-TESTS-OWNER-DISCRIMINATOR'
@@ -311,9 +311,15 @@ def populate(ctx, env, rng, per_class):
             A = M.instances(info, r['a']); B = M.instances(info, r['b'])
             if not A or not B: continue
             if r['kind'] == 'n1':
+                same_h = info.root[r['a']] == info.root[r['b']]
                 for a in A:
                     if rng.random() < 0.75:
-                        b = rng.choice(B)
+                        # references inside one hierarchy are kept acyclic: Query.prefetch() of a one-to-many self
+                        # reference never terminates on a reference cycle reached through a many-to-many link (pony
+                        # defect outside C27, reported separately) and would only trip the watchdog here
+                        cand = [b for b in B if b < a] if same_h else B
+                        if not cand: continue
+                        b = rng.choice(cand)
                         if not (link_ok(b, r['b']) and link_ok(a, r['a'])): continue
                         linked(a, b, r)
                         setattr(live[a], r['an'], live[b])
@@ -411,7 +417,7 @@ def classify_loud(ctx, env, M, e, what):
 
 
 def witness(env, M, **kw):
-    w = {'spec': env.spec, 'pop': env.pop_key}
+    w = {'spec': env.spec, 'pop': env.pop_key, 'per_class': env.per_class}
     w.update(kw)
     return w
 
@@ -1189,7 +1195,7 @@ def explicit_discriminator(ctx, env, M):
 
 # ---------------------------------------------------------------------------------------------------------------
 
-def run_spec(ctx, spec, pop_seed, quick, only=None):
+def run_spec(ctx, spec, pop_seed, quick, only=None, per_class=None):
     from pony.orm import core
     rng = ctx.subrng('pop', pop_seed, spec['idx'])
     try:
@@ -1198,13 +1204,14 @@ def run_spec(ctx, spec, pop_seed, quick, only=None):
         ctx.count('spec_rejected'); ctx.extra.setdefault('rejected', []).append(str(e)[:200])
         return
     env.pop_key = pop_seed
+    env.per_class = per_class or (2 if quick else 3)
     env.fp = json.dumps([spec['shape'], [(r['pk'], r['discr']) for r in spec['roots']],
                          [(r['kind'], r['a'], r['an'], r['b']) for r in spec['rels']],
                          [[a['name'], a['required'], a['unique']] for c in spec['classes'] for a in c['attrs']]])
     ctx.count('databases'); ctx.count('shape.' + spec['shape'])
     for r in spec['roots']:
         if r['name'] != 'Owner': ctx.count('pk.' + r['pk']); ctx.count('discr.' + r['discr'])
-    try: M = populate(ctx, env, rng, 2 if quick else 3)
+    try: M = populate(ctx, env, rng, env.per_class)
     except Exception:
         import traceback
         ctx.violation({'spec': spec, 'pop': pop_seed, 'path': 'populate', 'error': traceback.format_exc()[-1800:]},
@@ -1250,7 +1257,7 @@ def clean_session():
 
 def run(ctx):
     quick = ctx.tier == 'quick'
-    n = 14 if quick else 20
+    n = 10
     base = ctx.shard * 1000
     for i in range(n):
         idx = i if (ctx.shard == 0) else base + 12 + i      # shard 0 walks the systematic prefix
@@ -1258,20 +1265,21 @@ def run(ctx):
         run_spec(ctx, spec, idx, quick)
     k = 1 if quick else 1.4
     ctx.floor('databases', int(n * 0.8))
-    ctx.floor('type_checks', int(20000 * k))
-    ctx.floor('seeds_observed', int(400 * k))
-    ctx.floor('polymorphic_reads', int(2000 * k))
-    ctx.floor('set_checks', int(2000 * k))
-    ctx.floor('isinstance_queries', int(6000 * k))
-    ctx.floor('isinstance.agree', int(6000 * k))
+    ctx.floor('type_checks', int(15000 * k))
+    ctx.floor('seeds_observed', int(300 * k))
+    ctx.floor('polymorphic_reads', int(1500 * k))
+    ctx.floor('set_checks', int(1500 * k))
+    ctx.floor('isinstance_queries', int(5000 * k))
+    ctx.floor('isinstance.agree', int(5000 * k))
     ctx.floor('isinstance_ref_queries', int(1500 * k))
     ctx.floor('subattr_queries', int(2000 * k))
-    ctx.floor('path.unpickle', int(80 * k))
-    ctx.floor('path.proxy', int(100 * k))
+    ctx.floor('path.unpickle', int(60 * k))
+    ctx.floor('path.proxy', int(80 * k))
     ctx.floor('path.fk_nav', int(60 * k))
-    ctx.floor('lookup.mixed.getitem', int(400 * k))
+    ctx.floor('lookup.mixed.getitem', int(300 * k))
     ctx.floor('outcome.agree', int(12000 * k))
 
 
 def replay(ctx, witness):
-    run_spec(ctx, witness['spec'], witness['pop'], ctx.tier == 'quick')
+    pc = witness.get('per_class', 2)
+    run_spec(ctx, witness['spec'], witness['pop'], pc == 2, per_class=pc)
